@@ -28,12 +28,18 @@ Progs ==
     P1(<<SFor("e", "arr", <<EArr(<<Num(4), Num(5)>>)>>, <<SFor("c", "str", <<EStr(<<97, 98>>)>>, <<Pr(<<EVar("e", T_num), EVar("c", T_str)>>)>>)>>)>>),
     P1(<<SCall(ECallB("test", <<EBool(TRUE)>>)), Pr(<<Num(1)>>), SCall(ECallB("test", <<Num(1), Num(2)>>)), Pr(<<Num(2)>>)>>),
     P1(<<SInfer("m", EMap(<<<<97>>, <<98>>>>, <<Num(1), Num(2)>>)), SFor("k", "map", <<EVar("m", TMap(T_num))>>, <<Pr(<<EVar("k", T_str)>>)>>)>>),
+    \* loops whose body is only a comment or blank lines (delay loops) still yield in every iteration
+    P1(<<SFor("", "num", <<Num(6)>>, <<[k |-> "raw", ps |-> <<"// delay">>]>>), Pr(<<Num(9)>>)>>),
+    P1(<<SFor("i", "num", <<Num(4)>>, <<[k |-> "raw", ps |-> <<"">>], [k |-> "raw", ps |-> <<"// wait">>], Pr(<<EVar("i", T_num)>>)>>), Pr(<<Num(9)>>)>>),
+    P1(<<SInfer("x", Num(0)), SWhile(EBin("<", X, Num(3)), <<[k |-> "raw", ps |-> <<"// tick">>], SAsg(X, EBin("+", X, Num(1)))>>), Pr(<<X>>)>>),
     \* not terminating: with effects, without effects, by recursion
     P1(<<SWhile(EBool(TRUE), <<Pr(<<Num(1)>>)>>)>>),
     P1(<<SInfer("x", Num(0)), SWhile(EBool(TRUE), <<SAsg(X, EBin("+", X, Num(1)))>>)>>),
     [Program(<<SInfer("x", Num(0)), SCall(ECallU("g", NoSig, <<>>))>>,
              <<FuncDef("g", <<>>, <<>>, T_none, <<SAsg(X, EBin("+", X, Num(1))), SIf(<<EBin("==", X, Num(2))>>, <<<<Pr(<<X>>)>>>>, <<>>), SCall(ECallU("g", NoSig, <<>>))>>)>>, <<>>) EXCEPT !.fl = TRUE],
-    P1(<<SWhile(EBool(TRUE), <<SFor("i", "num", <<Num(2)>>, <<Pr(<<EVar("i", T_num)>>)>>)>>)>>) }
+    P1(<<SWhile(EBool(TRUE), <<SFor("i", "num", <<Num(2)>>, <<Pr(<<EVar("i", T_num)>>)>>)>>)>>),
+    P1(<<SWhile(EBool(TRUE), <<[k |-> "raw", ps |-> <<"// spin">>]>>)>>),
+    P1(<<SFor("", "num", <<Num(10000)>>, <<[k |-> "raw", ps |-> <<"// delay">>]>>), Pr(<<Num(9)>>)>>) }
 
 FamCases == {MkCase("FamStop", "stop", p) : p \in Progs}
 FamInit == InitWith(FamCases)
